@@ -37,7 +37,8 @@ type c20Step struct {
 type c20Job struct {
 	defShell string
 	defWD    bool // defaults.run with working-directory (also when there is no default shell)
-	windows  bool
+	windows  bool     // what the documented rule says about `labels` (a label `windows` or `windows-…`, in any letter case)
+	labels   []string // the runs-on labels as written
 	steps    []c20Step
 }
 type c20File struct {
@@ -61,10 +62,10 @@ func (f *c20File) yaml(fi int) string {
 	b.WriteString("jobs:\n")
 	for ji, j := range f.jobs {
 		fmt.Fprintf(&b, "  job%d:\n", ji)
-		if j.windows {
-			b.WriteString("    runs-on: windows-latest\n")
+		if len(j.labels) == 1 {
+			fmt.Fprintf(&b, "    runs-on: %s\n", j.labels[0])
 		} else {
-			b.WriteString("    runs-on: ubuntu-latest\n")
+			fmt.Fprintf(&b, "    runs-on: [%s]\n", strings.Join(j.labels, ", "))
 		}
 		if j.defShell != "" || j.defWD {
 			b.WriteString("    defaults:\n      run:\n")
@@ -202,7 +203,18 @@ func runC20(c *ctx, r *Report) error {
 			f := &c20File{defShell: shells[rng.Intn(6)], defWD: rng.Intn(3) == 0}
 			nj := 1 + rng.Intn(3)
 			for ji := 0; ji < nj; ji++ {
-				j := c20Job{defShell: shells[rng.Intn(6)], defWD: rng.Intn(3) == 0, windows: rng.Intn(5) == 0}
+				j := c20Job{defShell: shells[rng.Intn(6)], defWD: rng.Intn(3) == 0}
+				// runner labels: GitHub-hosted names and the labels of self-hosted runners (GitHub spells the default ones
+				// `self-hosted`, `Windows`, `Linux`, `X64`), and names that merely contain the word
+				pool := [][]string{{"ubuntu-latest"}, {"ubuntu-latest"}, {"ubuntu-latest"}, {"windows-latest"}, {"Windows-2022"}, {"self-hosted", "Windows", "X64"},
+					{"self-hosted", "windows"}, {"WINDOWS"}, {"self-hosted", "Linux", "X64"}, {"macos-latest"}, {"windowsx"}, {"my-windows-box"}, {"self-hosted", "WINDOWS-gpu"}}
+				j.labels = pool[rng.Intn(len(pool))]
+				for _, l := range j.labels {
+					ll := strings.ToLower(l)
+					if ll == "windows" || strings.HasPrefix(ll, "windows-") {
+						j.windows = true
+					}
+				}
 				ns := rng.Intn(6)
 				if big {
 					ns = 12
@@ -250,9 +262,9 @@ func runC20(c *ctx, r *Report) error {
 				for _, st := range j.steps {
 					ss = append(ss, fmt.Sprintf("(%s,1)", optS(st.shell)))
 				}
-				label := "ubuntu-latest"
-				if j.windows {
-					label = "windows-latest"
+				var lbls []string
+				for _, l := range j.labels {
+					lbls = append(lbls, hx(l))
 				}
 				h := 0
 				if j.defShell != "" || j.defWD {
@@ -262,7 +274,7 @@ func runC20(c *ctx, r *Report) error {
 				if len(ss) > 0 {
 					stepsS = sexpList(ss)
 				}
-				js = append(js, fmt.Sprintf("(%d,%s,(%s),%s)", h, optS(j.defShell), hx(label), stepsS))
+				js = append(js, fmt.Sprintf("(%d,%s,%s,%s)", h, optS(j.defShell), sexpList(lbls), stepsS))
 			}
 			h := 0
 			if f.defShell != "" || f.defWD {
